@@ -1,5 +1,10 @@
 package ksim
 
+import "k8s.io/apimachinery/pkg/runtime/schema"
+
+type GKAlias = schema.GroupKind
+
 func installOracles(s *Sim, sc *Scenario) {
-	s.Oracles = append(s.Oracles, &coreOracle{sc: sc}, newTrafficOracle(sc))
+	tr := newTrafficOracle(sc)
+	s.Oracles = append(s.Oracles, &coreOracle{sc: sc}, tr, &faultOracle{sc: sc, tr: tr})
 }
